@@ -134,8 +134,8 @@ StepKind ==
     ELSE IF A.its[i].br = "inf" THEN "retinf"
     ELSE "raise"
 
-Iterate(kind) ==
-    /\ pc = "loop" /\ i <= LenMax /\ StepKind = kind
+IterateBody ==
+    /\ pc = "loop" /\ i <= LenMax
     /\ LET fa == IF i <= LenA THEN Failing("A", RunStep(A.its[i], i, LenA)) ELSE {}
            fb == IF i <= LenB THEN Failing("B", RunStep(B.its[i], i, LenB)) ELSE {}
            tie == Coupled /\ TieStep(A.its[i], B.its[i])
@@ -150,10 +150,18 @@ Iterate(kind) ==
     /\ i' = i + 1
     /\ UNCHANGED <<pid, pc>>
 
-IterateUpdate == Iterate("update")      \* OptNu found a root: Sigma and mu updated, loop test evaluated
-IterateReturnInf == Iterate("retinf")   \* OptNu chose nu = inf: the run returns the incoming (mu, Sigma)
-IterateRaise == Iterate("raise")        \* the iteration raised in run A
-IterateAlone == Iterate("alone")        \* steps of the longer run / of both runs after a near-tie: single-run clauses only
+\* OptNu found a root: Sigma and mu updated, loop test evaluated
+IterateUpdate == /\ pc = "loop" /\ i <= LenMax /\ StepKind = "update"
+                 /\ IterateBody
+\* OptNu chose nu = inf: the run returns the incoming (mu, Sigma)
+IterateReturnInf == /\ pc = "loop" /\ i <= LenMax /\ StepKind = "retinf"
+                    /\ IterateBody
+\* the iteration raised in run A
+IterateRaise == /\ pc = "loop" /\ i <= LenMax /\ StepKind = "raise"
+                /\ IterateBody
+\* steps of the longer run / of both runs after a near-tie: single-run clauses only
+IterateAlone == /\ pc = "loop" /\ i <= LenMax /\ StepKind = "alone"
+                /\ IterateBody
 
 -----------------------------------------------------------------------------
 (* End of both runs: the coupling of the returned triples, and the          *)
